@@ -29,7 +29,9 @@ def run(tier, seed):
                    # an in-place update hands EVERY recorded consumer of the updated tensor over to the placeholder that keeps the old value -- whatever
                    # state the consumer's other inputs are in: a consumer left on the public tensor back-propagates through post-update values once its
                    # cleared input is used again
-                   ("c04_graph", r"reroute")],
+                   ("c04_graph", r"reroute"),
+                   # the refusal is repeatable: a sweep that _backward() refuses propagates the exception and does not clear the terminal's graph
+                   ("c14_seed", r"^C09\.sweep")],
         bounded=[("state_bounded.py", ["--check", "C09"])],
         replay=_replay,
         trusted=["pyvc/graphdom.py heap model"],
